@@ -464,6 +464,16 @@ func (w *tmWorld) Verify(cfg *pCfg, q *pQuery, pf *pProof) (error, map[string]in
 				note = "nonexistence proof"
 			}
 		})
+	case "shadowKey":
+		edit(func(mp *commitmenttypes.MerkleProof) {
+			switch p := mp.Proofs[0].Proof.(type) {
+			case *ics23.CommitmentProof_Exist:
+				p.Exist.Key = append([]byte{0x01}, qkey...)
+			case *ics23.CommitmentProof_Nonexist:
+				p.Nonexist.Key = append([]byte{0x01}, qkey...)
+				note = "nonexistence proof"
+			}
+		})
 	case "truncated":
 		bz = append([]byte{}, bz[:len(bz)*2/3]...)
 	case "reordered":
@@ -565,13 +575,21 @@ func mptProve(tr *trie.Trie, key []byte) [][]byte {
 	return out
 }
 
-func mptBuildState(h int, facts []pFact) *mptState {
+// mptShadowSlot is the storage location a key with one extra leading byte hashes to.
+func mptShadowSlot(slot []byte) []byte { return append([]byte{0x01}, slot...) }
+
+func mptBuildState(h int, facts []pFact, all []pFact) *mptState {
 	st := &mptState{state: mptNewTrie()}
 	for c := 0; c < 2; c++ {
 		a := &mptAccount{addr: crypto.Keccak256([]byte(fmt.Sprintf("tibc-contract-%d", c)))[12:], nonce: 1,
 			balance: big.NewInt(1234567), codeHash: crypto.Keccak256Hash([]byte("contract code")), storage: mptNewTrie()}
 		for _, f := range facts {
 			mptPutWord(a.storage, mptSlot(pPath(f.Kind, f.S, f.D, f.N)), pWord(f.Kind, f.V))
+		}
+		// "shadow" storage: for every fact of the whole history (stored at this height or not) the same word sits at
+		// the location that the slot with one extra leading byte hashes to - a different place of the contract's storage
+		for _, f := range all {
+			mptPutWord(a.storage, mptShadowSlot(mptSlot(pPath(f.Kind, f.S, f.D, f.N))), pWord(f.Kind, f.V))
 		}
 		// unrelated storage: other slots of the contract, one of them changing with every block
 		for i := 0; i < 24; i++ {
@@ -613,7 +631,11 @@ func newMPTWorld(t *testing.T, cfg *pCfg, key string) *mptWorld {
 	w.name["eth"] = fmt.Sprintf("eth-%s-%s", strings.ToLower(cfg.Hist), tag)
 	seen := map[common.Hash]bool{}
 	for h := 1; h <= len(cfg.S); h++ {
-		st := mptBuildState(h, cfg.S[h-1])
+		all := []pFact{}
+		for _, fs := range cfg.S {
+			all = append(all, fs...)
+		}
+		st := mptBuildState(h, cfg.S[h-1], all)
 		if seen[st.root] {
 			t.Fatalf("mpt world: state roots of two heights coincide")
 		}
@@ -729,6 +751,15 @@ func (w *mptWorld) Verify(cfg *pCfg, q *pQuery, pf *pProof) (error, map[string]i
 				leaf, _ := rlp.EncodeToBytes(items)
 				storageProof = append(append([][]byte{}, storageProof[:n-1]...), leaf)
 				reported, note = nw, ""
+			}
+		}
+	case "shadowKey":
+		// key = 0x01 || queried slot; proof material = the real proof of the shadow location
+		slotLabel = mptShadowSlot(qslot)
+		storageProof = mptProve(p.acct.storage, crypto.Keccak256(slotLabel))
+		if n := len(storageProof); n > 0 {
+			if word, _ := mptLeafValue(storageProof[n-1]); word != nil {
+				reported = word
 			}
 		}
 	case "empty":
